@@ -46,7 +46,7 @@ for _p, _extra in {
            "DRAW-LOG postconditions of matplotlib bar / scatter / line / fill / step / map and of plotly bar / line / scatter / map (arguments handed to the primitives), labels, error "
            "bars, values, ticks, histogram untouched; ascii hbar is decided by the cross-check on the real code only.",
     "C15": "transform wiring of all seven classes (uninterpreted hypot/arctan2, 2*pi folding), mixin find_bin/fill/fill_n, projection class map. The transform of a single point "
-           "(all inputs of that call shape, nothing bounded) is counted under obligations/discharged.",
+           "(all inputs of that call shape, nothing bounded) and the fill of one Cartesian point into a radial / azimuthal histogram with ANY number of bins are counted under obligations/discharged.",
     "C16": "densities/bin_sizes/edges/centres/widths/cumulative of 1D and ND histograms, true bin measures and additivity for the seven special classes (cos uninterpreted).",
 }.items():
     CHECKS[_p] = {"category": "other", "technique": _B, "text": _BT + _extra, "note": _NOTE + "Bounded extents (see evidence coverage.bounded.bounds)."}
